@@ -232,3 +232,110 @@ Print Assumptions C04_webhook_export_padded_witness.
 Theorem C04_webhook_body_blank_first : body_of (flow_parse w_row_blank_first) = Some [98; 111; 100; 121; 32; 111; 110; 101]%N.
 Proof. exact webhook_body_blank_first. Qed.
 Print Assumptions C04_webhook_body_blank_first.
+
+(* ------------------------------------------------------------------------------------------------
+   The exported rows MEAN the flow (Exp/Means*.v).  For every flow of a family (MeansFamily.exportable, decidable):
+   if the exporter model gives rows, the rows have a reference meaning (Flow/RowSem.v: rowsem of Means.abs_rows, the
+   reading of exported rows that harness/rowref.py writes; compared on every generated export, engine 104) and that
+   reference flow has exactly the traces of the flow (Means.flow_of), labels matched up to the names the sheet does not
+   fix (wildcards on the reference side).  [means ueqb ustr numbered strip ns] is that statement for one flow.
+   Uuids are an abstract type with a decidable equality, rendered by any injective function with non-empty values. *)
+From RPFT Require Import Flow.RowSem Exp.Means Exp.MeansFamily Exp.MeansTheorem.
+
+(* stage 1: flows of nodes without routers (chains, joins, cycles), any number of actions per node (merged through the
+   node id; one action per node with strip_uuids) *)
+Theorem C04_to_rows_means_flow_basic_partial :
+  forall (U : Type) (ueqb : U -> U -> bool), (forall a b, ueqb a b = true <-> a = b) ->
+  forall (ustr : U -> str), (forall a b, ustr a = ustr b -> a = b) -> (forall a, ustr a <> []) ->
+  forall numbered strip_uuids (ns : list (node U)),
+    exportable U ueqb ns = true -> basic_only U ns = true -> (strip_uuids = true -> single_rows U ns = true) ->
+    forall rows, to_rows ueqb numbered ns = Ok rows ->
+    exists ref, rowsem nab (abs_rows U ustr strip_uuids rows) = Some ref
+      /\ (forall t, traces (flow_of U ustr ns) t -> exists t', traces ref t' /\ Forall2 (ematch sexp (fun a b => smatch b a)) t t')
+      /\ (forall t, traces ref t -> exists t', traces (flow_of U ustr ns) t' /\ Forall2 (ematch sexp smatch) t t').
+Proof. exact means_basic. Qed.
+Print Assumptions C04_to_rows_means_flow_basic_partial.
+
+(* non-vacuity: a flow with a join and a cycle (1 -> 2 -> 3 -> 2) and a two-action node is in the family, exports to five rows
+   (the back edge is a go_to row, the second action a merged row) and its reference meaning has three nodes *)
+Example C04_to_rows_means_flow_nonvacuous :
+  exportable N N.eqb ex_cycle = true /\ basic_only N ex_cycle = true
+  /\ export_skel ex_cycle = Ok ex_cycle_rows
+  /\ ref_size ex_cycle = Some 3%nat.
+Proof. exact ex_cycle_exportable. Qed.
+Print Assumptions C04_to_rows_means_flow_nonvacuous.
+
+(* THE FAMILY (MeansFamily.exportable, decidable; design.d/C04.md "Exporter means the flow"): every node is
+     - a node without router with >= 1 actions of the sheet vocabulary, each of which the reference payload reading gives back
+       (action_ok: e.g. no empty attachment, one group per group action), or
+     - a switch router without actions: wait_for_response (with or without timeout / No Response category), split_by_value,
+       split_by_group; tests with at most one argument (none for the no-argument tests), pairwise different; every case has a
+       category of its own list; categories with distinct uuids and (outside group splits) distinct names; cases whose
+       category leads nowhere are allowed (loose_exit rows), or
+     - a random router without actions (buckets with distinct non-empty names), or
+     - an enter-flow / webhook / airtime node in the shape the sheet rows stand for;
+   node uuids are distinct; and - the one dynamic condition, which is the open finding case-order-follows-row-order - in the
+   exported sheet the edges carrying the cases of each router occur in the order of the cases (order_ok, computed on the export).
+   Premises on the tree: the four export repairs (regenerated probes).  With strip_uuids: one action per node.
+   NOT covered (what is missing for the full statement): routers whose case edges the depth-first order permutes (open finding);
+   has_group tests outside group splits (RowSem reads them with one argument); tests with two arguments, a case on the default /
+   No Response category, two categories of one name (not expressible / not distinguishable in the sheet format); switch routers
+   with actions; multi-action nodes under strip_uuids (their rows become a chain of nodes: trace-equal, not proved). *)
+Theorem C04_to_rows_means_flow_partial :
+  loose_exit_rows = true -> pairs_follow_cases = true -> split_rows_carry_save_name = true -> group_split_without_cases_exports = true ->
+  forall (U : Type) (ueqb : U -> U -> bool), (forall a b, ueqb a b = true <-> a = b) ->
+  forall (ustr : U -> str), (forall a b, ustr a = ustr b -> a = b) -> (forall a, ustr a <> []) ->
+  forall numbered strip_uuids (ns : list (node U)),
+    exportable U ueqb ns = true -> (strip_uuids = true -> single_rows U ns = true) ->
+    forall rows, to_rows ueqb numbered ns = Ok rows ->
+    exists ref, rowsem nab (abs_rows U ustr strip_uuids rows) = Some ref
+      /\ (forall t, traces (flow_of U ustr ns) t -> exists t', traces ref t' /\ Forall2 (ematch sexp (fun a b => smatch b a)) t t')
+      /\ (forall t, traces ref t -> exists t', traces (flow_of U ustr ns) t' /\ Forall2 (ematch sexp smatch) t t').
+Proof. exact to_rows_means_flow_partial. Qed.
+Print Assumptions C04_to_rows_means_flow_partial.
+
+(* non-vacuity: a wait_for_response router with a timeout, three cases (one leading nowhere: loose_exit row), a join, a cycle
+   through the default branch, a random router with an unconnected bucket and a webhook node: in the family, nine rows, five
+   reference nodes, and the statement evaluates to "holds" (4) in both export modes *)
+Example C04_to_rows_means_flow_routers_nonvacuous :
+  if all_repairs then
+    exportable N N.eqb ex_router = true /\ export_skel ex_router = Ok ex_router_rows /\ ref_size ex_router = Some 5%nat
+    /\ means_check N N.eqb ustrN false false ex_router = 4%N /\ means_check N N.eqb ustrN true true ex_router = 4%N
+  else True.
+Proof. exact ex_router_exportable. Qed.
+Print Assumptions C04_to_rows_means_flow_routers_nonvacuous.
+
+(* COROLLARY: the round trip over the two models.  On the intersection of the family with the fragment of C02
+   (Comp/Refine.v: fragb, a premise: whatever the refinement theorem of C02 covers - since comp2 also named categories, split_random
+   and rows merged through the node name; hence with or without strip_uuids, the `_nodeId` column being the row's node name), the
+   flow the compiler model makes of the exported rows and the original flow are both trace-equal, labels matched up to the names the sheet does not fix, to one reference flow: the meaning of the rows.
+   (Exp/MeansComp.v; only composes C04_to_rows_means_flow_partial with C02_compile_refines_rowsem_std.) *)
+From RPFT Require Import Comp.Compile Comp.Refine Exp.MeansComp.
+Theorem C04_roundtrip_model_partial :
+  loose_exit_rows = true -> pairs_follow_cases = true -> split_rows_carry_save_name = true -> group_split_without_cases_exports = true ->
+  compile_checks_node_uuids = true ->
+  forall (U : Type) (ueqb : U -> U -> bool), (forall a b, ueqb a b = true <-> a = b) ->
+  forall (ustr : U -> str), (forall a b, ustr a = ustr b -> a = b) -> (forall a, ustr a <> []) ->
+  forall numbered strip_uuids (ns : list (ToRows.node U)) rows name f,
+    exportable U ueqb ns = true -> (strip_uuids = true -> single_rows U ns = true) ->
+    to_rows ueqb numbered ns = Ok rows -> fragb (crows_of U ustr strip_uuids rows) = true ->
+    compile std_fresh name (crows_of U ustr strip_uuids rows) = Ok f ->
+    exists ref, rowsem Means.nab (abs_rows U ustr strip_uuids rows) = Some ref
+      /\ (forall t, traces (flow_of U ustr ns) t -> exists t', traces ref t' /\ Forall2 (ematch sexp (fun a b => smatch b a)) t t')
+      /\ (forall t, traces ref t -> exists t', traces (flow_of U ustr ns) t' /\ Forall2 (ematch sexp smatch) t t')
+      /\ (forall t, traces ref t -> exists t', traces f t' /\ Forall2 (ematch sexp smatch) t t')
+      /\ (forall t, traces f t -> exists t', traces ref t' /\ Forall2 (ematch sexp (fun a b => smatch b a)) t t').
+Proof. exact roundtrip_model_partial. Qed.
+Print Assumptions C04_roundtrip_model_partial.
+
+(* non-vacuity: message -> group split (member: on; otherwise back to the start: a cycle) -> message: in the family, in the
+   fragment, and the compiler model makes a flow of three nodes of its exported rows *)
+Example C04_roundtrip_model_nonvacuous : if all_repairs then rt_outcome true ex_rt = Some (true, true, 3%nat) else True.
+Proof. exact ex_rt_facts. Qed.
+Print Assumptions C04_roundtrip_model_nonvacuous.
+
+(* the same with node names (no strip_uuids), and for the cycle whose third node has two actions (two rows, merged through the name) *)
+Example C04_roundtrip_model_named_nonvacuous :
+  if all_repairs then rt_outcome false ex_rt = Some (true, true, 3%nat) /\ rt_outcome false ex_cycle = Some (true, true, 3%nat) else True.
+Proof. exact ex_rt_named_facts. Qed.
+Print Assumptions C04_roundtrip_model_named_nonvacuous.
